@@ -149,7 +149,7 @@ func c10Boundaries() []time.Time {
 		for _, ds := range []int64{-1, 0, 1} {
 			for _, dms := range []int64{-1, 0, 1, 500, 999} {
 				t := time.Unix(s+ds, dms*1e6)
-				if t.Year() >= 1 && t.Year() <= 9999 {
+				if y := t.UTC().Year(); y >= 1 && y <= 9999 {
 					out = append(out, t)
 				}
 			}
@@ -165,6 +165,9 @@ func TestC10(t *testing.T) {
 		s, _ := caseInt(rc, "unix_s")
 		ns, _ := caseInt(rc, "ns")
 		tm := time.Unix(s, ns)
+		if off, ok := caseInt(rc, "zone_offset_s"); ok {
+			tm = tm.In(time.FixedZone("replay", int(off)))
+		}
 		if z, _ := rc["zero"].(bool); z {
 			tm = time.Time{}
 		}
@@ -175,7 +178,8 @@ func TestC10(t *testing.T) {
 	}
 	one := func(tm time.Time) {
 		if msg := checkTime(tm); msg != "" {
-			directFail(t, "C10", map[string]interface{}{"unix_s": fmt.Sprint(tm.Unix()), "ns": fmt.Sprint(tm.Nanosecond()), "zero": tm.IsZero(), "rfc3339": tm.UTC().Format(time.RFC3339Nano)}, "C10 %s: %s", tm.UTC().Format(time.RFC3339Nano), msg)
+			_, off := tm.Zone()
+			directFail(t, "C10", map[string]interface{}{"unix_s": fmt.Sprint(tm.Unix()), "ns": fmt.Sprint(tm.Nanosecond()), "zone_offset_s": fmt.Sprint(off), "zero": tm.IsZero(), "rfc3339": tm.UTC().Format(time.RFC3339Nano)}, "C10 %s (carried in a zone %+d s from UTC): %s", tm.UTC().Format(time.RFC3339Nano), off, msg)
 		}
 		r.EvalN(5) // five positions
 		if tm.Year() < 1970 || tm.Year() >= 2038 || tm.Nanosecond() != 0 {
@@ -185,10 +189,19 @@ func TestC10(t *testing.T) {
 			return map[string]interface{}{"instant": tm.UTC().Format(time.RFC3339Nano), "unix_ms": tm.UnixMilli()}
 		})
 	}
+	// every boundary instant as a UTC value and carried in zones up to +14 h / -12 h (what the wall clock of the
+	// value's own zone shows - another day, another year - is not what is sent)
+	bzones := []*time.Location{time.UTC, time.FixedZone("+14", 14*3600), time.FixedZone("-12", -12*3600), time.FixedZone("+02", 2*3600), time.FixedZone("-05", -5*3600), time.FixedZone("+0530", 5*3600+1800)}
 	for _, tm := range c10Boundaries() {
-		one(tm)
+		for _, z := range bzones {
+			if tm.IsZero() {
+				one(tm)
+				break
+			}
+			one(tm.In(z))
+		}
 	}
-	r.Label("boundaries")
+	r.Label("boundaries x zones")
 	// ---- long messages: 9- and 5-octet dates at every alignment to the decoder's buffer refills
 	{
 		rs := seedFor("C10stream")
